@@ -10,7 +10,7 @@
        (reported for read-only operations).
    [agrees]: the tagged-heap model predicts exactly these observations.
    [C07_ok]: the property, evaluated on the observation alone. *)
-From SC Require Import Base.Prelude Alias.Owned Alias.Nested.
+From SC Require Import Base.Prelude Alias.Owned Alias.Nested Alias.Writable.
 
 Inductive icode :=
 | INone
@@ -34,6 +34,11 @@ Inductive scode := SId | SClear (fs : list Z) | SClearV0 (fs : list Z).
    clone (the code) or in place (before 2246d41 / seeded change C07-r3-3) *)
 Inductive rcode := RAsm (f : Z) (rm : option nmask) | RAsmV0 (f : Z) (rm : option nmask).
 
+(* the merge step of a write on a resource with writable fields / a write with a nested update mask or a
+   reset mask: FieldUpdater.Merge as it is (MW writable update reset), or with the by-reference fast path of
+   seeded change C07-r4-4 (MWShare) *)
+Inductive mcode := MW (w um rs : option nmask) | MWShare (w um rs : option nmask).
+
 Inductive cop :=
 | CWrite (id : Z) (arg : list cell) (vis : bool) (um : option (list Z)) (m : wmode) (ib ia : icode)
 | CDelete (id : Z)
@@ -41,7 +46,8 @@ Inductive cop :=
 | CList (rm : option (list Z))
 | CPull (rm : option (list Z)) (updates_only : bool) (hook : scode)
 | CMutArg (k : nat) (snap : Z)
-| CRead (r : rcode).
+| CRead (r : rcode)
+| CWriteF (id : Z) (arg : list cell) (vis : bool) (mc : mcode) (m : wmode) (ib ia : icode).
 
 Definition fuel : nat := 12%nat.
 
@@ -67,6 +73,9 @@ Definition rcode_fun (c : rcode) : rfun :=
 Definition scode_fun (c : scode) : sfun :=
   match c with SId => seed_id | SClear fs => seed_clear fuel fs | SClearV0 fs => seed_clear_v0 fs end.
 
+Definition mcode_fun (c : mcode) : mfun :=
+  match c with MW w um rs => upd_merge_w fuel w um rs | MWShare w um rs => upd_merge_share fuel w um rs end.
+
 Definition cop_op (c : cop) : op :=
   match c with
   | CWrite id arg vis um m ib ia => OWrite id arg vis um m (icode_fun ib) (icode_fun ia)
@@ -76,6 +85,7 @@ Definition cop_op (c : cop) : op :=
   | CPull rm uo h => OPull rm uo (scode_fun h)
   | CMutArg k _ => OMutArg k
   | CRead r => ORead (rcode_fun r)
+  | CWriteF id arg vis mc m ib ia => OWriteF id arg vis (mcode_fun mc) m (icode_fun ib) (icode_fun ia)
   end.
 
 (* observation after one operation *)
@@ -149,6 +159,7 @@ Definition cop_guard (c : cop) : bool :=
   | CWrite _ arg _ um _ ib ia =>
       arg_wf arg && icode_documented ib && icode_documented ia
       && match um with Some [] => false | _ => true end
+  | CWriteF _ arg _ _ _ ib ia => arg_wf arg && icode_documented ib && icode_documented ia
   | CGet _ (Some []) | CList (Some []) | CPull (Some []) _ _ => false
   | _ => true
   end.
